@@ -49,6 +49,7 @@ func specLargestUnit(d time.Duration) int64 {
 
 //@ func rollingAvgPeriodByte
 //@ props C20 C06
+//@ inline
 //@ assigns nothing
 //@ requires [C20.rolling-nonneg] d >= 0 && d <= 1<<53
 //@ ensures [C20.rolling-floor] rollingAvgPeriodDuration(result) <= d
